@@ -88,8 +88,10 @@ class InverseZTransformer(UnilateralInverseTransformer):
         # but can be simplified.
         # In general, 1 / (z**m * (z - a)) becomes a**n * u[n - m]
 
-        if (len(expr.args) == 2 and expr.args[1].is_Pow and
+        if (expr.is_Mul and len(expr.args) == 2 and expr.args[1].is_Pow and
+            expr.args[1].args[1] == -1 and
             expr.args[1].args[0].is_Add and
+            len(expr.args[1].args[0].args) == 2 and
             expr.args[1].args[0].args[0] == -1 and
                 expr.args[1].args[0].args[1] == z):
 
